@@ -260,8 +260,8 @@ def run(ctx):
     # fixed finding F17: names with HTML markup characters (only possible in hand-made chain dictionaries; always piped
     # through dot), alone, among table names, as mother, in nested lines, and as pure entity look-alikes
     special = ["a<b", "x&y", "p>q", "&amp;", "<SUB>", "a&b;c", "<<>>", "K&lt;", "&", "<", "q\"r", "it's", "&#773;",
-               # names with blanks in them, padded names, an empty name: one daughter each, one cell each
-               "pi+ slow", " K-", "K- ", "a  b", "", " ", "mu+\tmu-"]
+               # names with blanks in them, padded names, a name that is one blank: one daughter each, one cell each (the empty text is no name)
+               "pi+ slow", " K-", "K- ", "a  b", " ", "mu+\tmu-"]
     for k in range(12 if tier == "quick" else 120):
         spec = gen.rand_tree_spec(rng, rng.choice([1, 2, 3]), max_mult=2)
         dc = build_chain(spec, rng, with_meta=False)
